@@ -28,7 +28,8 @@ Theorem ledger_conservation :
   forall c ds pf pre m,
     NoDup (devs c) -> reach c ds pf pre m -> books_closedb c m = true ->
        sumf (f m fC) (devs c) + z m zB = z m zK                       (* counts sum to num_balls_known *)
-    /\ sumf (f m fA) (devs c) + z m zPA = z m zK                      (* so do the available balls *)
+    /\ sumf (f m fA) (devs c) + z m zPA = z m zK + z m zXS   (* so do the available balls, up to the excess zXS of
+                                                               the known defect below (available_sum_refuted) *)
     /\ ((forall d, In d (devs c) -> blfc (f m fS d) = false) ->
           sumf (balls m) (devs c) + z m zB = z m zK)                  (* ... also as device.balls *)
     /\ ((forall d, In d (devs c) -> f m fC d = f m fPH d) -> z m zTR = 0 ->
@@ -228,3 +229,27 @@ Theorem counter_report_in_ledger_range :
     0 <= last (crun cc (cinit cc) evs) <= cap c d.
 Proof. exact counter_report_in_ledger_range_l. Qed.
 Print Assumptions counter_report_in_ledger_range.
+
+(* ---------------------------------------------------------------------------------------------- *)
+(* available balls.  Full statement: whenever no booking is pending the available balls sum to num_balls_known.
+   FALSE of the faithful ledger and of the code (known finding
+   available-balls-excess-after-unrestorable-incoming-loss): lost_incoming_ball at a device that has no eject to
+   cancel and no available ball ("Failed to restore the path") books +1 to the playfield and -1 nowhere.  The BALL
+   COUNTS stay right (last conjunct). *)
+Theorem available_sum_refuted :
+  exists c ds pf pre m,
+    NoDup (devs c) /\ reach c ds pf pre m /\ z m zQ = 0 /\ z m zW = 0 /\
+    sumf (f m fA) (devs c) + z m zPA = z m zK + 1 /\ sumf (f m fC) (devs c) + z m zB = z m zK.
+Proof. exact available_sum_refuted_l. Qed.
+Print Assumptions available_sum_refuted.
+
+(* partial statement (clause 2 of ledger_conservation): the sum is off by exactly zXS, and zXS moves only in that one
+   situation: an incoming-ball loss being booked (zILT) at a device without an available ball, with no path restore
+   pending *)
+Theorem available_excess_only_from_unrestored_loss :
+  forall c x l y,
+    step c x l = Some y -> z y zXS <> z x zXS ->
+    l = LMissingToPf /\ z x zW <= 0 /\
+    isdev c (z x zILT) = true /\ f x fA (z x zILT) <= 0 /\ z y zXS = z x zXS + 1.
+Proof. exact available_excess_only_from_unrestored_loss_l. Qed.
+Print Assumptions available_excess_only_from_unrestored_loss.
